@@ -46,3 +46,25 @@ Theorem C01_logp_guard_total (F : Type) (v : ext F) :
   match logp_guard v with Fin _ | NInf => True | _ => False end.
 Proof. by case: v. Qed.
 Print Assumptions C01_logp_guard_total.
+
+(* the dense (DirectSolver) path of the model, with the factor COMPUTED by the model's Cholesky-Banachiewicz recursion
+   (Model/Dense.v, the stand-in for LAPACK): for a symmetric covariance with positive leading principal minors the factor
+   exists, is lower triangular with positive diagonal, L L^T = S, and the quadratic form of the whitened residual is
+   r^T S^-1 r -- so -1/2 quad - sum log diag L - n/2 log 2 pi is the exact multivariate-normal log density *)
+From TinyGP Require Import Theory.DenseThy.
+Theorem C01_logp_direct_exact (R : rcfType) n (var : vec R) (S : mat R) (mu y : vec R) :
+  let rops := @fops R Num.sqrt (fun x y => x < y) in
+  let s := MkD n var S (dense_chol rops n S) in
+  let Sm := mx_of n n S in let Lm := mx_of n n (d_tril s) in
+  let r := cv_of n (vsub rops n y mu) in
+  Sm^T = Sm -> (forall m, (0 < m <= n)%N -> 0 < \det (mx_of m m S)) ->
+  forall x : 'cV[R]_n, Sm *m x = r ->
+  [/\ quadform rops n (gp_alpha_direct rops s mu y) = (r^T *m x) 0 0,
+      (forall k, (k < n)%N -> 0 < nth 0 (d_diagL rops s) k),
+      lower_pos Lm /\ (forall i : 'I_n, Lm i i = nth 0 (d_diagL rops s) i) &
+      Lm *m Lm^T = Sm].
+Proof.
+move=> rops s Sm Lm r sym minors x Sx.
+exact: (logp_direct_exact var sym (piv_pos_of_minors sym minors) Sx).
+Qed.
+Print Assumptions C01_logp_direct_exact.
